@@ -31,6 +31,11 @@ from ..lib import cbuild
 UNKNOWN = 999999
 PUNCT_SUFFIX = ['.', ',', ';', ':', '!', '?', ')', '&', '>', "'s", '...']
 PUNCT_PREFIX = ['(', '<', '&']
+# characters that some line-level syntax of skool / control files uses as a marker (register continuation and
+# paragraph separator '.', control file continuation '.' / ':', header '>', list bullet '*', ...) at the beginning
+# of a *word*: there they are text. Only the one marker and the blanks behind it are syntax, so '; .  ...and so on'
+# continues a register description with the words '...and', 'so', 'on' (skool-files.rst, register sections)
+LEAD_PREFIX = ['.', '.', '..', '..', '...', '...', '*', '-', ':', '>']
 LETTERS = 'abcdefghijklmnopqrstuvxyz'     # no 'w': filler words can never look like a numbered token
 
 
@@ -261,8 +266,11 @@ class DocGen:
         room = n - len(base)
         pre = suf = ''
         if not plain and room > 0 and rng.random() < 0.3:
-            if rng.random() < 0.25:
+            r = rng.random()
+            if r < 0.25:
                 pre = rng.choice([p for p in PUNCT_PREFIX if len(p) <= room])
+            elif r < 0.5:
+                pre = rng.choice([p for p in LEAD_PREFIX if len(p) <= room])
             else:
                 c = [s for s in PUNCT_SUFFIX if len(s) <= room]
                 suf = rng.choice(c)
@@ -304,6 +312,9 @@ class DocGen:
         items = [self.words(self.rand_lens(1, 12), plain=True) for _ in range(rng.randint(1, 3))]
         if rng.random() < 0.3:
             items[rng.randrange(len(items))].append(self.word(rng.choice([30, 45, 60]), plain=True))
+        if rng.random() < 0.25:          # an item whose text begins with dots / a bullet lookalike
+            item = rng.choice(items)
+            item[0] = rng.choice(LEAD_PREFIX) + item[0]
         return ('l', rng.choice(['', '', 'nowrap', 'wrapalign']), items, self.pads(len(items)))
 
     def pad(self):
@@ -918,11 +929,16 @@ def ctl_text(para):
 
 
 def split_lines(rng, toks, sizes=(1, 2, 3, 5, 8, 12, 20)):
-    """break a token list into input lines at random places"""
+    """break a token list into input lines at random places; in 2 of 3 cases also in front of a word that begins
+    with a character some line-level syntax uses as a marker (so that such words begin continuation lines)"""
     lines = []
     i = 0
     while i < len(toks):
         n = rng.choice(sizes)
+        for j in range(i + 1, min(i + n, len(toks))):
+            if toks[j][0] in '.*-:>' and rng.random() < 0.67:
+                n = j - i
+                break
         lines.append(' '.join(toks[i:i + n]))
         i += n
     return lines
@@ -1017,6 +1033,8 @@ def render_skool(doc, rng):
                 sec.append(reg_head(reg) + ' ' + lines[0])
                 for line in lines[1:]:
                     sec.append('.' + ' ' * rng.choice([1, 1, 3]) + line)
+                    if line[0] == '.':
+                        ent['regdot'] = ent.get('regdot', 0) + 1
             sections.append(sec)
         else:
             sections.append(None)
@@ -1676,6 +1694,9 @@ def _capture(fn, args):
     return out.getvalue(), err.getvalue(), exc
 
 
+REG_CONT_DOT = re.compile(r'^; \. +\.')       # sna2skool: continuation of a register description, text begins with a dot
+
+
 BLOCK_BEGIN = re.compile(r'^#(LIST|TABLE|UDGTABLE)(\([^)]*\))?<wrapalign>$')
 
 
@@ -1783,6 +1804,7 @@ def run_doc(doc, wd):
     excs['skool'] = exc
     outs['skool'] = proj_skool(it, out) if not exc else []
     wastats = wrapalign_stats(out, conf['W']) if not exc else {}
+    skool_regdot = sum(1 for line in out.split('\n') if REG_CONT_DOT.match(line)) if not exc else 0
     outs['gen'] = proj_skool(it, skool)
     excs['gen'] = ''
     shutil.rmtree(d, ignore_errors=True)
@@ -1799,6 +1821,9 @@ def run_doc(doc, wd):
                 dot=it.code('.'), bul=it.code('*'), exc=excs[tool], exp=exp[tool][ei], out=o,
                 extra=len(outs[tool]) - len(doc['entries']),
                 wa=wastats if tool == 'skool' and ei == 0 else {},
+                # register continuation lines ('; .  text') whose text begins with a dot: in the skool file read by
+                # skool2asm / skool2html (and judged as 'gen'), in the skool file sna2skool wrote
+                regdot=(skool_regdot if ei == 0 else 0) if tool == 'skool' else ent.get('regdot', 0),
                 doc=dict(seed=doc['seed'], docid=doc['docid'], kind=doc['kind'], W=conf['W'], conf=conf)))
     return cases
 
